@@ -161,10 +161,68 @@ int env_conn_fd_peer(int fd) { return fdt[fd].peer_fd; }
 
 static int in_api(void) { return mc_cur_api()[0] != 0; }
 
+/* ---- forked child: calls that alter a kernel object shared with the owner (additive, used by h_life) --------
+ * In a process whose pid differs from env_owner_pid every descriptor known to the shim at the first wrapped call
+ * after the fork is an INHERITED duplicate: the open file description (epoll instance, timerfd, socket, eventfd)
+ * is the owner's.  close() of such a duplicate is what xcm_cleanup is for; epoll_ctl, timerfd_settime, setsockopt,
+ * shutdown, send on it change what the owner sees. */
+static pid_t env_owner_pid_fwd(void);
+static pid_t env_child_pid;
+static unsigned char env_inherited[MAXFD];
+static int n_child_alt;
+static char child_alt_first[64];
+
+static const char *kind_name(int kind)
+{
+    switch (kind) {
+    case K_TCP: return "tcp-socket";
+    case K_UNIXSEQ: return "unix-socket";
+    case K_TIMER: return "timerfd";
+    case K_EPOLL: return "epoll";
+    case K_EVENTFD: return "eventfd";
+    default: return "descriptor";
+    }
+}
+
+static int in_forked_child(void)
+{
+    pid_t owner = env_owner_pid_fwd();
+    if (!owner)
+        return 0;
+    pid_t p = getpid();
+    if (p == owner)
+        return 0;
+    if (p != env_child_pid) {
+        env_child_pid = p;
+        n_child_alt = 0;
+        child_alt_first[0] = 0;
+        for (int fd = 0; fd < MAXFD; fd++)
+            env_inherited[fd] = fd < fd_hi && fdt[fd].kind != K_NONE;
+    }
+    return 1;
+}
+
+void env_note_child_call(const char *call, int fd)
+{
+    if (!in_forked_child() || fd < 0 || fd >= MAXFD || !env_inherited[fd])
+        return;
+    if (n_child_alt++ == 0)
+        snprintf(child_alt_first, sizeof child_alt_first, "%s@%s", call, kind_name(fdt[fd].kind));
+}
+
+int env_child_alterations(char *what, size_t n)
+{
+    if (what && n)
+        snprintf(what, n, "%s", child_alt_first);
+    return in_forked_child() ? n_child_alt : 0;
+}
+
 static void fd_created(int fd, int kind)
 {
     if (fd < 0 || fd >= MAXFD)
         return;
+    if (in_forked_child())
+        env_inherited[fd] = 0;      /* the child's own */
     memset(&fdt[fd], 0, sizeof fdt[fd]);
     if (fd >= fd_hi)
         fd_hi = fd + 1;
@@ -259,6 +317,7 @@ static int ipport_to_sa(const struct ipport *a, int family, struct sockaddr *sa,
 }
 
 static pid_t env_owner_pid;   /* the process that runs the scenario; a fork()ed child of it only holds duplicates */
+static pid_t env_owner_pid_fwd(void) { return env_owner_pid; }
 
 void env_init(const struct env_cfg *c)
 {
@@ -416,6 +475,7 @@ int __wrap_epoll_create1(int flags)
 int __wrap_epoll_ctl(int epfd, int op, int fd, struct epoll_event *ev)
 {
     ENV_HOOK("epoll_ctl", epfd, op, fd);
+    env_note_child_call(op == EPOLL_CTL_ADD ? "epoll_ctl-add" : op == EPOLL_CTL_MOD ? "epoll_ctl-mod" : "epoll_ctl-del", epfd);
     if (fd < 0 || fd >= MAXFD || fdt[fd].kind != K_TCP)
         return __real_epoll_ctl(epfd, op, fd, ev);
     struct ereg *r = reg_find(epfd, fd);
@@ -709,6 +769,7 @@ int __wrap_timerfd_create(int clockid, int flags)
 int __wrap_timerfd_settime(int fd, int flags, const struct itimerspec *nv, struct itimerspec *ov)
 {
     ENV_HOOK("timerfd_settime", fd, flags, 0);
+    env_note_child_call("timerfd_settime", fd);
     if (fd < 0 || fd >= MAXFD || fdt[fd].kind != K_TIMER)
         return __real_timerfd_settime(fd, flags, nv, ov);
     if (ov)
@@ -1374,6 +1435,7 @@ void env_connect_log_entry(int i, int *fd, char *ip, int iplen, int *port)
 int __wrap_setsockopt(int fd, int level, int opt, const void *val, socklen_t len)
 {
     ENV_HOOK("setsockopt", fd, level, opt);
+    env_note_child_call("setsockopt", fd);
     if (fd < 0 || fd >= MAXFD || fdt[fd].kind != K_TCP) {
         if (fd >= 0 && fd < MAXFD && fdt[fd].kind == K_UNIXSEQ && cfg.fault_resource && in_api()) {
             static const int errs[] = { ENOMEM };
@@ -1581,6 +1643,7 @@ static void kill_fd(int fd)
 ssize_t __wrap_send(int fd, const void *buf, size_t len, int flags)
 {
     ENV_HOOK("send", fd, buf, len);
+    env_note_child_call("send", fd);
     if (fd < 0 || fd >= MAXFD)
         return __real_send(fd, buf, len, flags);
     struct efd *e = &fdt[fd];
@@ -1793,6 +1856,8 @@ ssize_t __wrap_recv(int fd, void *buf, size_t cap, int flags)
 int __wrap_close(int fd)
 {
     ENV_HOOK("close", fd, 0, 0);
+    if (in_forked_child() && fd >= 0 && fd < MAXFD)
+        env_inherited[fd] = 0;
     if (fd >= 0 && fd < MAXFD) {
         struct efd *e = &fdt[fd];
         /* inside an API call the library may only close what it created itself (every descriptor
